@@ -161,11 +161,64 @@ def mk_resp(v, cls, asgi, statuses):
     if preset_ct:
         headers['content-type'] = 'text/x-preset'
     opts = _RespOpts()
-    fields = dict(status=status, text=text, _data=data, _media=None, _media_rendered=None, stream=stream, _headers=headers, _extra_headers=None,
+    # media: an opaque document rendered by the handler the registry resolves (C11 / C12 contracts): the handler returns arbitrary bytes
+    has_media = v.choose(2, 'media?')
+    media, rendered, handlers = None, None, None
+    if has_media:
+        media = _MediaDoc()
+        rendered = v.bytes('rendered_media')
+        handlers = _Handlers(v, asgi, media, rendered)
+        opts.media_handlers = handlers
+    fields = dict(status=status, text=text, _data=data, _media=media, _media_rendered=v.real('falcon.response:_UNSET') if has_media else None,
+                  stream=stream, _headers=headers, _extra_headers=None,
                   _cookies=None, options=opts, complete=False, _sse=None, _registered_callbacks=None)
     resp = v.obj(cls, **fields)
-    info = dict(status=status, text=text, data=data, stream=stream, preset_cl=preset_cl, preset_ct=preset_ct, stream_kind=sk)
+    info = dict(status=status, text=text, data=data, stream=stream, preset_cl=preset_cl, preset_ct=preset_ct, stream_kind=sk, media=media,
+                rendered=rendered, handlers=handlers)
     return resp, info
+
+
+@stubclass
+class _MediaDoc:
+    def __pyvc_truth__(self):
+        return True
+
+
+@stubclass
+class _Handlers:
+    """Callee contract of Handlers._resolve (C11) and of a media handler's serialize (C12): any bytes; records what it was asked."""
+
+    def __init__(self, v, asgi, media, rendered):
+        self.v, self.asgi, self.media, self.rendered = v, asgi, media, rendered
+        self.resolved = []
+        self.serialized = []
+
+    def _resolve(self, media_type, default, raise_not_found=True):
+        v = self.v
+        self.resolved.append((media_type, default))
+        outer = self
+
+        @stubclass
+        class Handler:
+            def serialize(self_, media, content_type=None):
+                outer.serialized.append((media, content_type))
+                return outer.rendered
+
+            def serialize_async(self_, media, content_type=None):
+                outer.serialized.append((media, content_type))
+                return Ready(outer.rendered)
+
+        @stubclass
+        class Sync:
+            def __call__(self_, media, content_type=None):
+                outer.serialized.append((media, None))
+                return outer.rendered
+
+            def __pyvc_truth__(self_):
+                return True
+
+        use_sync = self.asgi and v.choose(2, 'serialize_sync?') == 1
+        return (Handler(), Sync() if use_sync else None, None)
 
 
 class _RespOpts:
@@ -225,7 +278,9 @@ def expected_body(info):
     """Documented precedence text > data > (media) > stream."""
     if info['text'] is not None:
         return _enc(info['text'])
-    return info['data']
+    if info['data'] is not None:
+        return info['data']
+    return info['rendered'] if info.get('media') is not None else None
 
 
 # --- WSGI ---------------------------------------------------------------------------------
@@ -291,12 +346,37 @@ def wsgi_tail(v):
     else:
         v.check('empty-response-has-empty-body-and-zero-length', isinstance(body, list) and len(body) == 0 and hd.get('content-length') == '0')
     if code in TYPELESS:
-        v.check('204-304-get-no-framework-content-type', ('content-type' in hd) == bool(info['preset_ct']))
+        v.check(_typeless_clause(info), ('content-type' in hd) == bool(info['preset_ct']))
     else:
         v.check('every-other-response-has-a-content-type', 'content-type' in hd)
     if info['preset_ct']:
         v.check('explicit-content-type-is-kept', hd.get('content-type') == 'text/x-preset')
+    _media_clauses(v, info)
     v.cover('returned')
+
+
+def _typeless_clause(info):
+    # a 204 / 304 whose (unsent) body would be the rendered media document is its own clause: a recorded finding there cannot hide any other case
+    if info.get('media') is not None and info['text'] is None and info['data'] is None and not info['preset_ct']:
+        return '204-304-with-rendered-media-get-no-framework-content-type'
+    return '204-304-get-no-framework-content-type'
+
+
+def _media_clauses(v, info):
+    """text > data > media: the document is serialized only when neither text nor data is set, then exactly once, by the handler
+    resolved for the response's content type (the default media type when the responder set none)."""
+    h = info.get('handlers')
+    if h is None:
+        return
+    if info['text'] is not None or info['data'] is not None:
+        v.check('media-not-serialized-when-text-or-data-is-set', len(h.serialized) == 0 and len(h.resolved) == 0)
+        return
+    v.check('media-serialized-exactly-once', len(h.serialized) == 1 and len(h.resolved) == 1)
+    if len(h.serialized) == 1 and len(h.resolved) == 1:
+        want = 'text/x-preset' if info['preset_ct'] else 'application/json'
+        v.check('media-handler-resolved-for-the-response-content-type', h.resolved[0] == (want, 'application/json'))
+        v.check('media-handler-receives-the-document', h.serialized[0][0] is info['media'] and h.serialized[0][1] in (None, want))
+    v.cover('media-rendered')
 
 
 def _is_str(x):
@@ -438,7 +518,12 @@ def asgi_tail(v):
     v.check('session-complete-on-normal-return', mon.state == 'DONE')
     if mon.start is None:
         return
-    _, media_type, hd = mon.start['headers']
+    if v.concrete:
+        # native replay: the real _asgi_headers has already merged the media type into the header list
+        hd = {k.decode('latin-1'): val.decode('latin-1') for k, val in mon.start['headers']}
+        media_type = None
+    else:
+        _, media_type, hd = mon.start['headers']
     v.check('status-code-forwarded', mon.start['status'] is code or mon.start['status'] == code)
     last = mon.body_events[-1] if mon.body_events else {}
     v.check('only-the-last-body-event-has-more-body-false', all(e.get('more_body') is True for e in mon.body_events[:-1]) and not last.get('more_body', False))
@@ -457,9 +542,11 @@ def asgi_tail(v):
             v.check('stream-closed-exactly-once-after-streaming', st.closes == 1)
         v.check('stream-chunks-are-more-body-events-then-a-final-empty-one', _same(sent[-1], b''))
     if typeless:
-        v.check('204-304-get-no-framework-content-type', media_type is None)
+        v.check(_typeless_clause(info), media_type is None and ('content-type' in hd) == bool(info['preset_ct']))
+        v.cover('typeless')
     else:
         v.check('every-other-response-has-a-content-type', media_type is not None or 'content-type' in hd)
+    _media_clauses(v, info)
     v.cover('returned')
 
 
@@ -482,7 +569,7 @@ ASSUMPTIONS = [
 ]
 NOT_DECIDED = [
     'SSE emission branch (asyncio task watching for disconnect) -- resp._sse is None in these harnesses',
-    'media rendering inside the tails (C12 proves render_body media branch separately); resp._media is None here',
+    'what a media handler writes: the rendered document is arbitrary bytes returned by a handler stub (C11 resolves, C12 serializes)',
     'header list construction _asgi_headers/_wsgi_headers with cookies (C15)',
 ]
 TRUSTED = ['monitors StartResponse / SendMonitor and stream stubs in contracts/C05_response.py']
@@ -508,6 +595,13 @@ KILLS = [
      'content-length-equals-body-bytes'),
     ('falcon/response.py', "        text = self.text\n        if text is None:\n            data = self._data\n", "        text = self.text\n        if text is None or self._data is not None:\n            data = self._data\n",
      'body-follows-precedence-text-data-media-stream'),
+    # media precedence: the document wins over data (WSGI render_body / the copy inlined in the ASGI tail)
+    ('falcon/response.py', "            if data is None and self._media is not None:\n", "            if self._media is not None:\n", 'body-follows-precedence-text-data-media-stream'),
+    (_AAPP, "                    if data is None and resp._media is not None:\n", "                    if resp._media is not None:\n", 'App.__call__#'),
+    # the handler is resolved for the default type although the responder chose another one
+    ('falcon/response.py', "                    handler, _, _ = self.options.media_handlers._resolve(\n                        self.content_type, self.options.default_media_type\n",
+     "                    handler, _, _ = self.options.media_handlers._resolve(\n                        self.options.default_media_type, self.options.default_media_type\n",
+     'media-handler-resolved-for-the-response-content-type'),
     ('falcon/app_helpers.py', "        try:\n            self._stream.close()\n        except (AttributeError, TypeError):\n            pass", "        pass", 'closes-the-stream-exactly-once'),
 ]
 HARMLESS = [
